@@ -384,6 +384,109 @@ theorem c18_ambiguous_keys_rejected :
   · intro st t h; simp [Toml.groupStep, h]
   · intro st t ha h; simp [Toml.privStep, ha, h]
 
+/-! the array of tables itself spelled in two ways (`[[servers]]` … `[[Servers]]`): the TOML library keeps two
+arrays, the decoder stores both into the one field in map order — such a file never yields identities -/
+
+theorem svcTable_spell {st st' : Toml.GSt} {a b : Str} {k : Option Str} {kvs : List (Str × Str)}
+    (h : Toml.svcTable st a b k kvs = .ok st') : st'.spell = st.spell := by
+  unfold Toml.svcTable at h
+  split at h; · cases h
+  split at h; · cases h
+  split at h
+  · cases h
+  · split at h; · cases h
+    split at h; · cases h
+    split at h; · cases h
+    split at h
+    · split at h; · cases h
+      split at h; · cases h
+      split at h; · cases h
+      cases h; rfl
+    · split at h; · cases h
+      cases h; rfl
+
+theorem groupStep_spell_keep {st st' : Toml.GSt} {t : Toml.Table} {a : Str}
+    (h : Toml.groupStep st t = .ok st') (hs : st.spell = some a) : st'.spell = some a := by
+  unfold Toml.groupStep at h
+  split at h
+  · cases h
+  · split at h
+    · rename_i x hx
+      split at h
+      · cases h
+      · split at h
+        · cases h
+        · rename_i hsp
+          split at h
+          · cases h
+          · cases h
+            simp only
+            rw [hs] at hsp
+            simp only [Option.isSome_some, true_and, ne_eq, Option.some.injEq, Decidable.not_not] at hsp
+            rw [hsp]
+    · rw [svcTable_spell h]; exact hs
+    · rw [svcTable_spell h]; exact hs
+    · cases h
+
+theorem groupStep_spell_set {st st' : Toml.GSt} {t : Toml.Table} {a : Str}
+    (h : Toml.groupStep st t = .ok st') (ha : t.array = true) (hp : t.path = [a]) : st'.spell = some a := by
+  unfold Toml.groupStep at h
+  split at h
+  · cases h
+  · rw [ha, hp] at h
+    simp only at h
+    split at h; · cases h
+    split at h; · cases h
+    split at h; · cases h
+    cases h; rfl
+
+theorem groupLoop_spell_keep (tables : List Toml.Table) :
+    ∀ (st st' : Toml.GSt) (a : Str), Toml.groupLoop tables st = .ok st' → st.spell = some a → st'.spell = some a := by
+  induction tables with
+  | nil => intro st st' a h hs; simp only [Toml.groupLoop] at h; cases h; exact hs
+  | cons t r ih =>
+    intro st st' a h hs
+    simp only [Toml.groupLoop] at h
+    split at h
+    · rename_i st1 h1; exact ih st1 st' a h (groupStep_spell_keep h1 hs)
+    · cases h
+    · cases h
+
+/-- **every array-of-tables header of a group file that is read is spelled the same way**: if the tables of a
+document are accepted, each `[[…]]` header in it is, letter for letter, the spelling the reader ends with — so a file
+that holds `[[servers]]` and `[[Servers]]` (any two spellings, anywhere, any number of elements) is not read -/
+theorem c18_array_spelled_one_way (tables : List Toml.Table) :
+    ∀ (st st' : Toml.GSt), Toml.groupLoop tables st = .ok st' →
+      ∀ t ∈ tables, t.array = true → ∀ a, t.path = [a] → st'.spell = some a := by
+  induction tables with
+  | nil => intro st st' _ t ht; cases ht
+  | cons t0 r ih =>
+    intro st st' h t ht harr a hp
+    simp only [Toml.groupLoop] at h
+    split at h
+    · rename_i st1 h1
+      rcases List.mem_cons.mp ht with e | hin
+      · subst e
+        exact groupLoop_spell_keep r st1 st' a h (groupStep_spell_set h1 harr hp)
+      · exact ih st1 st' h t hin harr a hp
+    · cases h
+    · cases h
+
+theorem c18_array_spelled_twice_rejected (tables : List Toml.Table) (st : Toml.GSt) (t₁ t₂ : Toml.Table) (a b : Str)
+    (h₁ : t₁ ∈ tables) (h₂ : t₂ ∈ tables) (ha₁ : t₁.array = true) (ha₂ : t₂.array = true)
+    (hp₁ : t₁.path = [a]) (hp₂ : t₂.path = [b]) (hne : a ≠ b) :
+    ∀ st', Toml.groupLoop tables st ≠ .ok st' := by
+  intro st' h
+  have e1 := c18_array_spelled_one_way tables st st' h t₁ h₁ ha₁ a hp₁
+  have e2 := c18_array_spelled_one_way tables st st' h t₂ h₂ ha₂ b hp₂
+  rw [e1] at e2
+  exact hne (Option.some.inj e2)
+
+/-- the seeder's file in small: two spellings, different servers -/
+example : Toml.readGroupText
+    ([91, 91, 115, 101, 114, 118, 101, 114, 115, 93, 93, 10, 80, 117, 98, 108, 105, 99, 32, 61, 32, 34, 97, 34, 10] ++
+     [91, 91, 83, 101, 114, 118, 101, 114, 115, 93, 93, 10, 80, 117, 98, 108, 105, 99, 32, 61, 32, 34, 98, 34, 10]) = .err := by decide
+
 /-- the design of the witness file of the finding: `Public` and `public` in one `[[servers]]` table -/
 example : Toml.readGroupText
     [91, 91, 115, 101, 114, 118, 101, 114, 115, 93, 93, 10, 80, 117, 98, 108, 105, 99, 32, 61, 32, 34, 97, 34, 10,
